@@ -325,3 +325,37 @@ def gen(shard, rng, tier):
             yield from both(lib_case("lib", req, {"cls": "lib-random"}))
         for L in range(0, 41):
             yield from both(lib_case("lib", {"op": "mnemonic.random", "length": L}, {"cls": "lib-random"}))
+
+
+def extra_phases(ctx, tier, seed):
+    """Thorough tier: the FFI write is also checked by ASan (in-process getentropy override copying exactly `len` bytes into the
+    buffer the library passed) and by Miri with Stacked Borrows on (Miri's own getentropy shim)."""
+    if tier != "thorough":
+        return {}, []
+    from ..run import core, sanitize
+    rng = core.rng_for(seed, ID, "sanitizers")
+    reqs = []
+    for L in range(0, 41):
+        for e in (None, "00" * 32, "ff" * 32, rand_bytes(rng, 32).hex()):
+            r = {"op": "mnemonic.random", "length": L}
+            if e:
+                r["entropy"] = e
+            reqs.append(r)
+        reqs.append({"op": "mnemonic.random", "length": L, "fail_at": 1})
+        reqs.append({"op": "mnemonic.random", "length": L, "passthrough": True})
+    s1, v1 = sanitize.asan_lib(reqs, ctx.run_dir, jobs=4)
+    batches = [("entropy-sb-%d" % i, "", [{"op": "mnemonic.random", "length": L} for L in range(i, 41, 4)]) for i in range(4)]
+    s2, v2, obs = sanitize.miri(batches, ctx.run_dir)
+    viol = v1 + v2
+    for name, pairs in obs.items():
+        for req, o in pairs:
+            L = req["length"]
+            if "panic" in o:
+                viol.append({"sig": "C12/miri-L%d/panic" % L, "msg": "panic under Miri: %s" % str(o["panic"])[:200], "case": None, "obs": [o]})
+            elif (L in LEGAL) != ("ok" in o):
+                viol.append({"sig": "C12/miri-L%d/%s" % (L, "generated" if "ok" in o else "refused"), "msg": "Mnemonic::random(%d) under Miri: %s" % (L, str(o)[:150]),
+                             "case": None, "obs": [o]})
+            elif "ok" in o and bip39.classify(o["ok"]["phrase"].split(" ")) != "ok":
+                viol.append({"sig": "C12/miri-L%d/invalid-phrase" % L, "msg": "invalid phrase generated under Miri", "case": None, "obs": [o]})
+    return {"sanitizers": [s1, s2], "evaluations": s1["executions"] + s2["executions"],
+            "buckets": {"sanitizer-executions:AddressSanitizer": s1["executions"], "sanitizer-executions:Miri": s2["executions"]}}, viol
